@@ -22,6 +22,7 @@ import SarpyModel.Drivers.FieldFmt2
 import SarpyModel.Drivers.XsdFmt
 import SarpyModel.Drivers.Kernels2
 import SarpyModel.Drivers.Tre
+import SarpyModel.Drivers.Dispatch
 namespace Sarpy.Drivers
 
 def step (line : String) : String :=
@@ -51,6 +52,7 @@ def step (line : String) : String :=
   | "xsd" :: rest => (xsdStep rest).getD "bad-op"
   | "k2" :: rest => (k2Step rest).getD "bad-op"
   | "tre" :: rest => (treStep rest).getD "bad-op"
+  | "disp" :: rest => (dispStep rest).getD "bad-op"
   | _ => "bad-op"
 
 partial def loop (h : IO.FS.Stream) : IO Unit := do
